@@ -264,7 +264,7 @@ Section STEPINV.
     intros Hn Hp Hs. inversion Hs; subst; rewrite Hn in *;
       match goal with [ H : Some _ = Some _ |- _ ] => inversion H; subst; clear H end; try congruence.
     - do 3 eexists. repeat split; eauto.
-    - rewrite (is_jump_not_phi _ H12) in Hp. discriminate.
+    - match goal with [ H : is_jump _ = true |- _ ] => rewrite (is_jump_not_phi _ H) in Hp end. discriminate.
   Qed.
   Lemma phi_step (h : func) b k q c m ins o v :
     nth_error (nth_block h b) k = Some ins -> is_phi ins = true -> i_outs ins = [o] -> phi_src (i_args ins) q = Some v ->
